@@ -210,10 +210,17 @@ def render(items):
         files["SchemaFacts/%s.lean" % ident] = "\n".join(ls) + "\n"
         # construction
         lb = [HEADER.rstrip("\n"), "import Gen.Schemas", "import PM.SchemaBuild", "import Proofs.SchemaDecEq",
+              "import Proofs.BuildKernel",
               "namespace PM.Gen.SchemaBuilds", "open PM PM.SchemaCompile PM.SchemaBuild PM.Gen.Schemas", "",
-              "/-- the model of the schema constructor, run by the kernel on the spec of `%s`, produces exactly the tables" % name,
-              "    the real constructor produced -/",
-              "theorem %s_builds : buildSchema spec%s = .ok s%s := by decide +kernel" % (lid, ident, ident), "",
+              "/-- the model of the table compiler (`NodeType.compile`, `MarkType.compile`, `gather_marks`, flags, attributes),",
+              "    given the automata, produces exactly the tables the real constructor produced for `%s` -/" % name,
+              "theorem %s_compiles : compileSchema spec%s (s%s.nodes.toList.map (·.dfa)) = .ok s%s := by decide +kernel" % (
+                  lid, ident, ident, ident), "",
+              "/-- the model of the whole schema constructor (content expressions parsed and compiled to automata included), run",
+              "    by the kernel on the spec of `%s`, produces exactly what the real constructor produced.  (Evaluated on the" % name,
+              "    structurally recursive twin `buildSchemaK`, equal to `buildSchema` by Proofs/BuildKernel.lean.) -/",
+              "theorem %s_builds : buildSchema spec%s = .ok s%s := by" % (lid, ident, ident),
+              "  rw [← PM.BuildK.buildSchemaK_eq]; decide +kernel", "",
               "end PM.Gen.SchemaBuilds"]
         files["SchemaBuilds/%s.lean" % ident] = "\n".join(lb) + "\n"
 
